@@ -320,6 +320,9 @@ func c08Run(maxHosts, roOutcomes, ssFailOn, localFaultOn int) {
 		e.remotes[h] = r
 		s := w.fleet.Servers[h]
 		s.Alive, s.IsReplica, s.IORunning, s.SQLRunning, s.SSSlave = r.alive, r.isRep, r.io, r.sql, r.ssSlave
+		// a thread that is not running may have died with an error number recorded (state "error")
+		s.IOErrno = verifnd.IteInt(verifnd.And(verifnd.Not(r.io), verifnd.Bool("io_errno."+h)), 1236, 0)
+		s.SQLErrno = verifnd.IteInt(verifnd.And(verifnd.Not(r.sql), verifnd.Bool("sql_errno."+h)), 1062, 0)
 		s.ReadOnly, s.SuperRO = true, true
 		s.Source = c08Decoy
 		if !w.app.cluster.IsHAHost(h) {
